@@ -42,6 +42,7 @@ def run(ck, fb):
     r05d(ck, fb)
     r05e(ck, fb)
     r05g(ck, fb)
+    r05h(ck, fb)
     ck.borrow('rules.c08', {'R08b': 'R05f'}, 'membership/addresses of an installed snapshot reach the index file')
 
 
@@ -320,3 +321,59 @@ def r05g(ck, fb):
                'the handler answers with a plain %s while the write it triggers is only queued with ctx.wait: the caller (save_hard_state, SaveMember, '
                'AddNodeAddr) is acknowledged before the write has started - a copy of the index file taken right after the acknowledgement still holds '
                'the previous term and vote' % ty[:60], 'answer delivered as an actor future')
+
+
+def r05h(ck, fb, R='R05h'):
+    ck.rule(R, 'no decision is taken on a field whose new value is still in flight: when an actor method schedules a future (ctx.wait / ctx.spawn) whose '
+               'completion closure assigns an actor field, the field holds the OLD value until that closure has run - after the method returned. A '
+               'method that calls such a scheduler (directly or through its helpers) must not read that field afterwards on the same path. '
+               'RaftSnapshotManager::install_snapshot built the SaveMember it sends to the index from last_header right after scheduling the load '
+               'of the installed snapshot\'s header: it saved the membership and the address map of the previous snapshot')
+    deferred = {}
+    for c in fb.bodies.values():
+        if not c.parent or c.kind != 'Closure':
+            continue
+        P = fb.bodies.get(c.parent)
+        if P is None or not P.calls(r'ContextFutureSpawner<.*>>::(wait|spawn)$|AsyncContext<.*>>::(wait|spawn)$'):
+            continue
+        for (o, f, bb, st) in c.field_writes():
+            if o.startswith('rnacos::'):
+                deferred.setdefault((o, f), set()).add(P.name)
+    ck.floor(R, 'actor fields assigned by a completion closure', len(deferred), 10)
+    n = 0
+    regs = {}
+
+    def region_names(t):
+        if t.name not in regs:
+            regs[t.name] = set(x.name for x in util.region(fb, t, 3))
+        return regs[t.name]
+    readers = {}
+    for X in fb.bodies.values():
+        if X.parent or '::tests::' in X.name:
+            continue
+        for (oo, ff, bb, st) in X.field_reads():
+            if (oo, ff) in deferred:
+                readers.setdefault((oo, ff), {}).setdefault(X.name, []).append(bb)
+    for (o, f), Ps in sorted(deferred.items()):
+        for xn, reads in sorted(readers.get((o, f), {}).items()):
+            X = fb.bodies[xn]
+            if xn in Ps:
+                continue
+            for s0 in X.sites:
+                t = util._local_target(X, s0)
+                if t is None:
+                    continue
+                if not (region_names(t) & Ps):
+                    continue
+                n += 1
+                ck.analysed(X)
+                nxt = X.blocks[s0.bb]['t'].get('t')
+                r = cfg.reach_from(X, [nxt]) if nxt is not None else set()
+                hit = [b for b in reads if b in r]
+                ck.require(not hit, R, 'stale-read:%s.%s:in:%s' % (o.split('::')[-1], f, X.name.split('::')[-1]), X.where(hit[0]) if hit else s0.where(),
+                           '%s reads %s.%s after calling %s, which only schedules the future that will assign it: the value read is the one from before '
+                           '(install of snapshot 2 with members {1,2,3} saved members [1,2] and the addresses of 1 and 2 - the header of snapshot 1 - '
+                           'to the index; a stop before apply_snapshot repairs it leaves the regressed membership in the file)' % (
+                               X.name.split('::')[-1], o.split('::')[-1], f, t.name.split('::')[-1]),
+                           'not read after %s' % t.name.split('::')[-1])
+    ck.info(R, '%d call sites of a scheduler in a method that also reads the scheduled field' % n)
